@@ -276,9 +276,13 @@ func (w *World) evalTxCond(a txAbs) func(ssa.Value) (bool, bool) {
 	}
 }
 
-func n3(w *World, r *Report) {
-	run := needFn(r, "N-3", w, fref{"node", "", "runTrx"})
-	post := needFn(r, "N-3", w, fref{"node", "", "postRunTrx"})
+func n3(w *World, r *Report) { routingTable(w, r, "N-3") }
+
+// routingTable evaluates runTrx and postRunTrx on every abstract transaction
+// (type x receiver-has-code x exec) and reports one obligation per row under rule.
+func routingTable(w *World, r *Report, rule string) {
+	run := needFn(r, rule, w, fref{"node", "", "runTrx"})
+	post := needFn(r, rule, w, fref{"node", "", "postRunTrx"})
 	if run == nil || post == nil {
 		return
 	}
@@ -317,7 +321,7 @@ func n3(w *World, r *Report) {
 	for _, c := range CallsIn(post) {
 		nm := callName(c.Common())
 		if (nm == "AddNonce" || nm == "SetNonce") && evPost(c) == "" {
-			r.Violate("N-3", "postRunTrx:foreign-nonce-update:"+w.canonCall(c.Common(), 0), "postRunTrx changes a nonce other than ctx.Sender's", nil, site(w, c))
+			r.Violate(rule, "postRunTrx:foreign-nonce-update:"+w.canonCall(c.Common(), 0), "postRunTrx changes a nonce other than ctx.Sender's", nil, site(w, c))
 		}
 	}
 	native := map[int64]string{1: "TrxAcctHandler", 7: "TrxAcctHandler", 2: "TrxStakeHandler", 3: "TrxStakeHandler", 8: "TrxStakeHandler", 4: "TrxGovHandler", 5: "TrxGovHandler", 6: "TrxEVMHandler"}
@@ -329,7 +333,7 @@ func n3(w *World, r *Report) {
 				rp, c1 := w.enumPaths(run, w.evalTxCond(a), evRun, 200)
 				pp, c2 := w.enumPaths(post, w.evalTxCond(a), evPost, 200)
 				if !c1 || !c2 {
-					r.Undecided("N-3", key, "path enumeration did not complete")
+					r.Undecided(rule, key, "path enumeration did not complete")
 					continue
 				}
 				wantHandler := native[typ]
@@ -380,9 +384,9 @@ func n3(w *World, r *Report) {
 					}
 				}
 				if bad == "" {
-					r.OK("N-3", key, fmt.Sprintf("handler %q; nonce consumed natively: %v", wantHandler, wantHandler != "TrxEVMHandler" && wantHandler != ""), fnSite(w, run), fnSite(w, post))
+					r.OK(rule, key, fmt.Sprintf("handler %q; fee (gas limit x price) and nonce consumed natively: %v", wantHandler, wantHandler != "TrxEVMHandler" && wantHandler != ""), fnSite(w, run), fnSite(w, post))
 				} else {
-					r.Violate("N-3", key, bad, nil, fnSite(w, run), fnSite(w, post))
+					r.Violate(rule, key, bad, nil, fnSite(w, run), fnSite(w, post))
 				}
 			}
 		}
